@@ -324,6 +324,8 @@ def build_move(m: dict, labels, cache: dict):
             out.max_attempts = m.get("max_attempts", 3)
         if "preselect" in m:
             pass
+    for k, v in (m.get("attrs") or {}).items():  # any tunable attribute, composites included
+        setattr(out, k, v)
     if "id" in m:
         cache[m["id"]] = out
     return out
